@@ -318,7 +318,7 @@ def run_probe(chk):
         if st["ok"] + st["fail"] == 0:
             chk.fault(f"wavefunction probe wrote no {fmt} file at all")
     # a failure is filed under its first remaining feature (fixed priority), so that the group does not depend on the seed
-    prio = ["conv", "order", "centres", "kind", "contraction", "purecart", "virtuals"]
+    prio = ["shells", "conv", "order", "centres", "kind", "contraction", "purecart", "virtuals"]
     merged = {}
     for gname, g in res["groups"].items():
         head, _, tags = gname.partition("@")
